@@ -1377,6 +1377,15 @@ func (R *Run) ruleReceiveErrors() {
 			R.bad("receive-errors-propagate", fname(fn), P.pos(fn.Pos()), "the function no longer returns an error")
 			continue
 		}
+		// every byte of the upload is taken with a whole-read primitive: a single Read may return fewer bytes than
+		// asked for, the rest of the header would then be parsed as the next fork
+		for _, ci := range callsIn(fn) {
+			cc := ci.Common()
+			if cc.IsInvoke() && cc.Method.Name() == "Read" && cc.Signature().Params().Len() == 1 {
+				R.bad("receive-errors-propagate", fmt.Sprintf("%s: %s.Read #%d", fname(fn), typeName(cc.Value.Type()), nCreateIn(fn, ci)), P.ipos(ci),
+					"a part of the upload is taken with one Read of the stream: when the transport delivers fewer bytes than the part is long, the remainder is parsed as what follows and a file that is not what the client sent is published without an error")
+			}
+		}
 		for _, ci := range callsIn(fn) {
 			c, ok := ci.(*ssa.Call)
 			if !ok {
